@@ -8,6 +8,7 @@ func checkC14(c *Check) {
 	c.Rule = "TLC (RulesGen.tla, alphabet AlphaLimits) enumerates documents under several small limit configurations (container depth, object count, array bytes, identifier length, marker count each set to 1..4) so that every document's usage lies below, at and above each limit; a behaviour ends at the first event the model rejects because a limit is exceeded; each is replayed into rules.NewRules configured with the same numbers. non-trivial = contains a container/array/marker; distinct = (limit configuration, index sequence)"
 	c.Assumptions = []string{"abs/concretiser of harness/abs.go", "TLC", "usage is counted the way the validator counts it (a marker and its value are 2 objects, a record type definition 1, a reference 1); MaxMarkerCount and MaxLocalReferenceCount are set equal", "document size limit (decoders) is checked by the CBE/CTE reader checks, not here"}
 	reasons := []string{"limit"}
+	runRulesMC(c, "AlphaLimits", map[string]int{"quick": 5, "thorough": 6}[c.Tier], Lim{Depth: 2, Objs: 4, ABytes: 3, IDLen: 2, Refs: 1}, "", "limits")
 	n := 5
 	if c.Tier == "thorough" {
 		n = 6
